@@ -5,7 +5,8 @@ ENTRY = {
     "streams": [
         {"name": "cache", "drive": "drive-cache", "model": "drv-dutiescache",
          "reset_ops": ["cfg"],
-         "n_quick": 30000, "seeds_quick": 3, "n_thorough": 300000, "seeds_thorough": 8},
+         "n_quick": 30000, "seeds_quick": 3, "n_thorough": 300000, "seeds_thorough": 8,
+         "search_seeds": 2},
     ],
     "level_text": "Kernel-checked Lean theorems over all histories of the duties cache (any beacon-node duty assignment incl. validators with no or several duties, all three duty kinds, every epoch and index list — overlapping, disjoint, repeated —, complete calls and any number of interleaved two-phase calls (lookup / beacon request in flight / store), reorg invalidations, trims, active-set updates): every answer equals the node's answer for the request as a multiset plus metadata (linearised at the lookup), invalidation/trim drop exactly the affected epochs and the next call fetches them afresh, and — for the variant with the proposed cloning fix — no returned metadata map or index slice is held by the cache or returned twice. For the code as it is the answer theorems carry two side conditions (no index repeated on the store path; no response stored across an invalidation of its epoch), each shown necessary by a kernel-checked witness and each removed by a modelled fix (`reach_all_fixed`); the model is tied to cache.go by differential correspondence of the real DutiesCache against a scripted beacon node with held requests.",
     "level_note": "Trusted: Lean kernel, Go correspondence harness and line driver. Go memory (sharing of maps/slices) is modelled as object identities and validated dynamically by pointer identity and mutate-and-reread probes; data races as such are not covered. Known findings on the unchanged tree: duplicated duties after an amend with a repeated index, shared sync-index slice, shared metadata map (D-8), stale response stored across InvalidateCache.",
